@@ -127,8 +127,8 @@ def decVal : Nat → Str → Option (Val × Str)
     | some r1 => match decVal f r1 with
       | none => none
       | some (v, r2) => (expect ')' r2).map fun r3 => (.renum name v, r3)
-  | f + 1, 'P' :: '[' :: r => (decList f ',' ']' r []).map fun (xs, r') => (.ptr true xs, r')
-  | f + 1, 'p' :: '[' :: r => (decList f ',' ']' r []).map fun (xs, r') => (.ptr false xs, r')
+  | f + 1, 'P' :: '[' :: r => (decList f ',' ']' r []).map fun (xs, r') => (.ptr true true xs, r')
+  | f + 1, 'p' :: '[' :: r => (decList f ',' ']' r []).map fun (xs, r') => (.ptr false true xs, r')
   | f + 1, 'V' :: '(' :: r => decVec f false r
   | f + 1, 'D' :: '(' :: r => decVec f true r
   | f + 1, 'M' :: '(' :: r => (decKvs f r []).bind fun (kvs, r1) => (decOrig f r1).map fun (o, r2) => (.map true kvs o, r2)
@@ -220,7 +220,7 @@ def render : Val → String
   | .array _ items _ => "A[" ++ ",".intercalate (renderList items) ++ "]"
   | .cenum v => "E" ++ S v
   | .renum n v => "R" ++ S n ++ "(" ++ render v ++ ")"
-  | .ptr _ _ => "P"
+  | .ptr _ _ _ => "P"
   | .subr => "F"
   | .vec dq buf _ => (if dq then "D(" else "V(") ++ render buf ++ ")"
   | .map bt kvs _ =>
@@ -232,6 +232,7 @@ def render : Val → String
   | .string s _ => "G" ++ hexOf s
   | .rc _ _ => "RC"
   | .cell v _ => "C(" ++ render v ++ ")"
+  | .canon o _ => render o
   | .other => "X"
 def renderList : List Val → List String
   | [] => []
@@ -263,6 +264,10 @@ def evalAnswer (s : St) (text : Str) : String :=
 def step (s : St) : List String → St × String
   | ["new", "parse"] => (s, "ok")
   | ["parse", x] =>
+    match decStr? x with
+    | some t => (s, (parseAnswer t.toList).1)
+    | none => (s, "bad-op")
+  | ["parse", x, _expected] =>
     match decStr? x with
     | some t => (s, (parseAnswer t.toList).1)
     | none => (s, "bad-op")
